@@ -21,8 +21,53 @@ def pre(tier):
 ALLV = (('CliffordCircuit', 'orig'), ('CliffordCircuit', 'copy'), ('CliffordCircuit', 'compose'), ('Circuit', 'orig'))
 
 
+def h_generator_reset(env, N, qubits, first, copy):
+    """one gate object whose generator is replaced after it was already used (first: 'b' backward, 'f' forward, 'fb'):
+    afterwards forward is the rotation by the NEW generator and backward undoes it (optionally on a copy of the gate)"""
+    from .c04 import rotation_table
+    from .circuits import ref_apply
+    M = Mods(env)
+    n = len(qubits)
+    mask = [i in qubits for i in range(N)]
+    g1 = env.bits('gen1', (2 * n,))
+    s1 = env.signs('gen1_sign', (1,))[0]
+    g2 = env.bits('gen2', (2 * n,))
+    s2 = env.signs('gen2_sign', (1,))[0]
+    gate = M.ci.CliffordGate(*qubits)
+    gate.set_generator(M.pa.Pauli(g1.copy(), s1))
+    xs = env.bits('x', (1, 2 * N))
+    xp = env.phases('xp', (1,))
+    warm = M.pa.PauliList(xs.copy(), xp.copy())
+    for step in first:
+        env.run(lambda: gate.forward(warm) if step == 'f' else gate.backward(warm))
+    tgt = gate
+    if copy:
+        c = env.run(lambda: gate.copy())
+        env.goal('copy_no_exception', b_not(c.raised))
+        if c.value is None:
+            return
+        tgt = c.value
+    r0 = env.run(lambda: tgt.set_generator(M.pa.Pauli(g2.copy(), s2)))
+    env.goal('set_generator_no_exception', b_not(r0.raised))
+    obj = M.pa.PauliList(xs.copy(), xp.copy())
+    tab = rotation_table(embed_string(g2, mask, N), s2, N)
+    r1 = env.run(lambda: tgt.forward(obj))
+    ge, pe = ref_apply(tab, xs[0], xp[0])
+    env.goal('forward_is_rotation_by_new_generator', b_and(b_not(r1.raised), b_and(arr_eq(obj.gs[0], ge), eq(obj.ps[0], pe))))
+    r2 = env.run(lambda: tgt.backward(obj))
+    env.goal('backward_undoes_forward', b_and(b_not(r2.raised), b_and(arr_eq(obj.gs[0], xs[0]), eq(obj.ps[0], xp[0]))))
+    r3 = env.run(lambda: (tgt.backward(obj), tgt.forward(obj)))
+    env.goal('forward_undoes_backward', b_and(b_not(r3.raised), b_and(arr_eq(obj.gs[0], xs[0]), eq(obj.ps[0], xp[0]))))
+
+
 def jobs(tier):
     J = []
+    for N, qubits in ((1, [0]), (2, [1]), (2, [0, 1]), (3, [0, 2])):
+        for first in ('b', 'f', 'fb', ''):
+            for copy in (False, True):
+                if N == 3 and (copy or first == ''):
+                    continue
+                J.append(dict(harness=('c10', 'h_generator_reset'), params=dict(N=N, qubits=qubits, first=first, copy=copy), timeout_s=300, cost=8))
     R = ('circuits', 'h_program_roundtrip')
     thorough = tier == 'thorough'
     # single gates of every kind, every placement N<=2, all configurations and both orders
